@@ -53,6 +53,15 @@ def gen(g, count):
         for i, n in enumerate(recs):
             ings = [(r.choice(leaves + recs[:i]), qint(g)) for _ in range(r.randint(0, 4))]
             book.append((n, ings))
+        if r.random() < 0.15:
+            # one coefficient beyond 2^24 (odd: exact in float64, not in float32); one per book, so that every product stays exact
+            cand = [(i, j) for i, (n, ings) in enumerate(book) for j, (ing, _) in enumerate(ings) if ing in leaves]
+            if cand:
+                i, j = r.choice(cand)
+                big = r.choice([16777217, 33554433, 123456789])
+                ings = list(book[i][1])
+                ings[j] = (ings[j][0], Qty(str(big), Fraction(big)))
+                book[i] = (book[i][0], ings)
         others = [b'/'.join(g.word(2, 6, 0.15).encode() for _ in range(2)) for _ in range(2)]
         if r.random() < 0.35:
             # an empty category component (doubled or trailing separator) is a component like any other
